@@ -60,7 +60,9 @@ def mc_cfg(emit):
 
 
 # ------------------------------------------------------------------ driver
-SCALARS = [17, "text", None, 2.5, True, 0, "", -3]
+# plain data: YAML scalars - also !!binary (bytes) - and, in Python configurations, tuples (they
+# are data as they stand, whatever they contain: only lists and mappings are walked)
+SCALARS = [17, "text", None, 2.5, True, 0, "", -3, b"\x00bin", (1, "t"), ({"__type__": "vp.fx_translate.okf_7777", "k": 1},)]
 OK_KINDS = ["okf", "okc", "okn", "rebind"]
 RAISE_KINDS = ["raise", "cfgerr", "raiseassert", "raiselookup"]
 NOLOAD_KINDS = ["nomodule", "missing", "notcallable", "nulltype"]
@@ -83,7 +85,16 @@ def render(tree, path, rnd, ids, scalars):
     if k == "S":
         return scalars[tree[1]]
     if k == "L":
-        return [render(t, path + [["i", i]], rnd, ids, scalars) for i, t in enumerate(tree[1])]
+        out = []
+        for i, t in enumerate(tree[1]):
+            if i and t == tree[1][i - 1] and t[0] == "T" and t[1] == "noload" and not t[2] and isinstance(out[-1], dict) and rnd.random() < 0.6:
+                # a copy-and-paste list: the SAME unresolvable element twice - two equal items,
+                # each with its own index
+                ids[path_key(path + [["i", i]])] = ids[path_key(path + [["i", i - 1]])]
+                out.append(dict(out[-1]))
+            else:
+                out.append(render(t, path + [["i", i]], rnd, ids, scalars))
+        return out
     if k == "M":
         return {KEYMAP.get(key, key) if KEYS_ODD[0] else key: render(t, path + [["k", key]], rnd, ids, scalars) for key, t in tree[1]}
     if k == "T":
@@ -116,10 +127,13 @@ def encode(val, by_id, scalars):
     if isinstance(val, Made):
         p = by_id.get(val.ident)
         return ["O", p] if p is not None else ["X", "unknown object %r" % val]
+    if isinstance(val, (tuple, bytes)):
+        for tok, s in scalars.items():
+            if type(s) is type(val) and s == val:
+                return ["S", tok]
+        return ["X", type(val).__name__]
     if isinstance(val, list):
         return ["L", [encode(v, by_id, scalars) for v in val]]
-    if isinstance(val, tuple):
-        return ["X", "tuple"]
     if isinstance(val, dict):
         if "__type__" in val:
             return ["X", "untranslated __type__ mapping"]
@@ -208,7 +222,11 @@ def random_tree(rnd, depth):
             return ["S", rnd.choice([1, 2])]
         return ["T", rnd.choice(["ok", "ok", "ok", "raises", "noload"]), []]
     if c < 0.45:
-        return ["L", [random_tree(rnd, depth - 1) for _ in range(rnd.randrange(0, 4))]]
+        items = [random_tree(rnd, depth - 1) for _ in range(rnd.randrange(0, 4))]
+        if rnd.random() < 0.25:
+            at = rnd.randrange(len(items) + 1)
+            items[at:at] = [["T", "noload", []], ["T", "noload", []]]
+        return ["L", items]
     keys = rnd.sample(["a", "b", "c", "d"], rnd.randrange(0, 4))
     items = [[k, random_tree(rnd, depth - 1)] for k in keys]
     if c < 0.65:
